@@ -330,6 +330,15 @@ func isPackageAppend(in ssa.Instruction) bool {
 	return false
 }
 
+// c03Predicates: audited truth tables of the boolean helpers that decide branches of the package
+// loops (SCALINT_LEARN=1 prints candidates as LEARN-PRED lines).
+var c03Predicates = map[string]string{
+	// a dependency line is one that is neither a comment nor the "empty=" trailer
+	"extractor/filesystem/language/java/gradlelockfile.isGradleLockFileDepLine": "atoms=[strings.HasPrefix(param0,\"#\":string) ; strings.HasPrefix(param0,\"empty=\":string)] table=1000",
+	// a valid package name is one the name pattern matches
+	"extractor/filesystem/language/python/requirements.isValidPackage": "atoms=[regexp.Regexp.MatchString(reValidPkg,param0)] table=01",
+}
+
 func runC03(p *Prog, r *Report) {
 	r.Rule("D1-scanner-err", "Scan()==false is followed by Err() whose result reaches the returned error")
 	r.Rule("D2-pending-record", "a record pending at end of input is still processed")
@@ -376,6 +385,43 @@ func runC03(p *Prog, r *Report) {
 		}
 	}
 	r.Instances("D3-omissions", "package-producing functions with audited omissions", nloops, 12)
+	// helper predicates that decide those branches: frozen truth tables
+	r.Rule("D3-predicates", "boolean helpers deciding a branch of a package loop compute the audited function of their atomic tests")
+	npred := 0
+	seenPred := map[string]bool{}
+	for _, fn := range fns {
+		if len(loopSkips(fn, isPackageAppend)) == 0 {
+			continue
+		}
+		for _, h := range conditionHelpers(p, fn) {
+			key := fnKey(h)
+			if seenPred[key] {
+				continue
+			}
+			seenPred[key] = true
+			sig, ok := predicateTable(h)
+			if !ok {
+				continue
+			}
+			if learn {
+				fmt.Fprintf(os.Stderr, "LEARN-PRED\t%q: %q,\n", key, sig)
+				continue
+			}
+			npred++
+			want, listed := c03Predicates[key]
+			switch {
+			case !listed:
+				r.Fail("D3-predicates", key, p.Pos(h.Pos()), "a boolean helper that decides whether a record is reported is not in the audited predicate table: "+sig)
+			case want != sig:
+				r.Fail("D3-predicates", key, p.Pos(h.Pos()), "the helper no longer computes the audited boolean function of its tests (e.g. a negation slipped over a disjunction makes a filter accept everything): got "+sig+", audited "+want)
+			default:
+				r.OK("D3-predicates", key, p.Pos(h.Pos()), sig)
+			}
+		}
+	}
+	if !learn {
+		r.Instances("D3-predicates", "boolean helpers with an audited truth table", npred, 1)
+	}
 }
 
 // c03Scanner: D1 for every bufio.Scanner loop in the scope.
